@@ -235,6 +235,7 @@ func deleteChildren(client *dynamicclientset.ResourceClient, parent *unstructure
 type lastUpdate struct {
 	hash               uint64
 	resourcegeneration int64
+	uid                types.UID
 }
 
 var (
@@ -266,7 +267,9 @@ func updateChildren(client *dynamicclientset.ResourceClient, updateStrategy Chil
 				cacheLock.RLock()
 				if lastUpdated, ok := lastUpdatedCache[lastUpdateCacheName]; ok {
 					cacheLock.RUnlock()
-					if lastUpdated.hash == hash && lastUpdated.resourcegeneration == oldObj.GetGeneration() {
+					// The entry is about the object we applied to: one that was deleted and
+					// created again under the same name starts over, whatever its generation.
+					if lastUpdated.hash == hash && lastUpdated.resourcegeneration == oldObj.GetGeneration() && lastUpdated.uid == oldObj.GetUID() {
 						logging.Logger.Info("Skipping update, no changes detected", "name", lastUpdateCacheName)
 						continue
 					}
@@ -306,6 +309,7 @@ func updateChildren(client *dynamicclientset.ResourceClient, updateStrategy Chil
 			lastUpdatedCache[lastUpdateCacheName] = &lastUpdate{
 				hash:               hash,
 				resourcegeneration: patched.GetGeneration(),
+				uid:                patched.GetUID(),
 			}
 
 			logging.Logger.Info("Cache updated", "name", lastUpdateCacheName)
